@@ -435,3 +435,8 @@ CORPUS = [
 ]
 
 PROP = Prop()
+
+import parts  # noqa: E402
+import parts_misc  # noqa: E402
+
+parts.attach(PROP, parts_misc.NODEMISC, parts_misc.FORWARD)   # Node/Tree miscellany; Node.__getattr__ (models Forest/MiscNode.v, MiscForward.v; theorems at the end of Properties/C10.v)
